@@ -75,6 +75,9 @@ type dsListener struct {
 	cancelRq bool
 	cancelDn bool
 	fuzzy    bool // registered or cancelled after Close had been called
+	// cancel is offered once this many notifications were sent after the
+	// registration (so that a slow listener has something queued)
+	cancelAfter int
 }
 
 type dsWorld struct {
@@ -313,7 +316,8 @@ func runDsync(r *simkit.Run, c Cfg, mode dsMode) {
 			l := &dsListener{name: fmt.Sprintf("L%d", i+1), cancelAt: -1}
 			d.lsts = append(d.lsts, l)
 			kind := tp.Choose(4, "lkind") // 0 fast, 1 slow, 2 stalled, 3 cancels
-			willCancel := kind == 3 || tp.Chance(1, 3, "lcancel")
+			willCancel := kind == 3 || tp.Chance(1, 2, "lcancel")
+			l.cancelAfter = tp.Choose(4, "lcancelAfter")
 			r.Go(l.name, func(t *simkit.Task) {
 				t.Yield("op")
 				ll := &listener{}
@@ -323,7 +327,7 @@ func runDsync(r *simkit.Run, c Cfg, mode dsMode) {
 				l.regDone = true
 				t.Logf("registered")
 				if willCancel {
-					t.Yield("op")
+					t.Yield("op.cancel")
 					l.cancelRq = true
 					ll.cancel() // parks at listener.cancel
 					l.cancelDn = true
@@ -357,6 +361,22 @@ func runDsync(r *simkit.Run, c Cfg, mode dsMode) {
 			return a
 		}
 		switch p.Site {
+		case "op.cancel":
+			for _, l := range d.lsts {
+				if l.name != p.Who {
+					continue
+				}
+				others := true
+				for _, t := range r.Tasks() {
+					if !t.Done() && !strings.HasPrefix(t.Name, "L") {
+						others = false
+					}
+				}
+				if len(d.sends)-l.regAt < l.cancelAfter && !others {
+					return &simkit.Action{Name: "hold op.cancel", Do: nil}
+				}
+			}
+			return nil
 		case "close.once":
 			return &simkit.Action{Name: "release close.once|", Weight: 1, Do: func() {
 				d.closeBegun = true
@@ -617,25 +637,25 @@ func (d *dsWorld) syncs() (map[syncKey]*syncRec, []*syncRec) {
 	return m, order
 }
 
-// staleStopPossible: some sync of pub began (read its stop point) before an
-// earlier-running sync of the same publisher ended, and one of the two was an
-// explicit sync. That is the precondition of the known finding D8.
-func staleStopPossible(order []*syncRec, pub string) bool {
-	for _, a := range order {
-		for _, b := range order {
-			if a == b || a.pub != pub || b.pub != pub {
-				continue
-			}
-			if !a.explicit && !b.explicit {
-				continue
-			}
-			// b began before a ended, and b was still active after a ended
-			if b.start <= a.end && b.end >= a.end && a.start <= b.end {
-				return true
-			}
+// mixedSyncs: the publisher was synced both explicitly and in response to
+// announcements in this run. That is the precondition of the known finding:
+// the stop point is read before the per-publisher lock is taken, and an
+// announced head that an explicit sync has already overtaken is walked again
+// from scratch (the subscriber cannot tell it is older than latest-sync).
+func mixedSyncs(order []*syncRec, pub string) bool {
+	exp, n := false, 0
+	for _, s := range order {
+		if s.pub != pub {
+			continue
+		}
+		n++
+		if s.explicit {
+			exp = true
 		}
 	}
-	return false
+	// an explicit sync plus at least one other sync (explicit or
+	// announce-triggered) of the same publisher
+	return exp && n >= 2
 }
 
 func (d *dsWorld) finalChecks() {
@@ -674,9 +694,9 @@ func (d *dsWorld) finalChecks() {
 		}
 		hs := perPub[pub.Name]
 		stale := ""
-		if staleStopPossible(order, pub.Name) {
-			stale = " [stale stop: an explicit sync and another sync of this publisher overlapped; the one that waited went on with the stop point it had read before the per-publisher lock was free]"
-			r.Probe("explicit-overlap")
+		if mixedSyncs(order, pub.Name) {
+			stale = " [mixed explicit/announce syncs of this publisher: the stop point is read before the per-publisher lock is free, and an announced head already overtaken by an explicit sync is walked again]"
+			r.Probe("explicit-and-announce-syncs-mixed")
 		}
 		// hook calls of different syncs never interleave; each sync's calls
 		// are a contiguous newest-to-oldest chain segment
@@ -787,7 +807,21 @@ func (d *dsWorld) finalChecks() {
 			hi = l.cancelAt
 		}
 		if l.stalled {
-			continue
+			// a listener that never read: what is queued for it must still
+			// be there, complete and in order, when it finally reads (also
+			// after it was cancelled)
+			l.stalled = false
+			for round, idle := 0, 0; round < 500 && idle < 3; round++ {
+				n := len(l.got)
+				l.read()
+				r.Quiesce()
+				if len(l.got) == n {
+					idle++
+				} else {
+					idle = 0
+				}
+			}
+			r.Probe("stalled-listener-drained")
 		}
 		if l.fuzzy {
 			// registration or cancellation raced with shutdown: the
@@ -808,6 +842,9 @@ func (d *dsWorld) finalChecks() {
 				r.Violate(o+".listener", "listener %s (registered or cancelled during shutdown) received notifications that are not a contiguous run of those sent after its registration", l.name)
 			}
 			continue
+		}
+		if os.Getenv("VERIF_DBG") != "" {
+			r.Logf("~dbg", "listener %s lo=%d hi=%d got=%d cancelDn=%v closed=%v sends=%d", l.name, lo, hi, len(l.got), l.cancelDn, l.closed, len(d.sends))
 		}
 		want := wg
 		if hi <= len(wg) && lo <= hi {
